@@ -3,7 +3,7 @@
     model is run on the STRING ITSELF and compared with what the implementation built from it (the graphs recorded in
     the graph-level record CutRunCheck.run_case):
       from_text s                      the base graph = the graph read_cgsmiles returned (exactly);
-                                       the dictionary = resolver.fragment_dicts[0]: same names in the same order, every
+                                       the dictionary = resolver.fragment_dicts[0]: the same names, every
                                        template with the same node keys in the same order, the same node attributes, the
                                        same neighbours with the same edge attributes;
       text_bonded s                    = self.molecule right after edges_from_bonding_descrpt, in the same sense.
@@ -25,12 +25,10 @@ Definition canon_node (n : nrec) : nrec :=
   {| nk := nk n; na := drop_book (na n);
      nadj := fold_right ins_adj [] (map (fun wa => (fst wa, drop_book (snd wa))) (nadj n)) |}.
 Definition graph_agree (a b : graph) : bool := graph_eqb (map canon_node a) (map canon_node b).
-Fixpoint dict_agree (a b : fragdict) : bool :=
-  match a, b with
-  | [], [] => true
-  | (k, g) :: a', (k', g') :: b' => str_eqb k k' && graph_agree g g' && dict_agree a' b'
-  | _, _ => false
-  end.
+(** the same names (in any order: nothing reads the order of a fragment dictionary) with agreeing templates *)
+Definition dict_agree (a b : fragdict) : bool :=
+  Nat.eqb (length a) (length b)
+  && forallb (fun kg => match fd_get (fst kg) a with Some g => graph_agree g (snd kg) | None => false end) b.
 
 (** the generated strings carry no annotation: float() is never called *)
 Definition text_fo : float_oracle := fo_of_table [].
